@@ -64,7 +64,8 @@ def p_node(n, opts=None):
         return "{%% with %s=%s %%}%s{%% endwith %%}" % (n["n"], p_expr(n["e"]), p_nodes(n["c"], opts))
     if t == "slot":
         flags = (" default" if n.get("default") else "") + (" required" if n.get("required") else "")
-        return '{%% slot "%s"%s%s %%}%s{%% endslot %%}' % (n["name"], p_kwargs(n.get("data") or {}), flags, p_nodes(n["c"], opts))
+        name = n["nvar"] if n.get("nvar") else '"%s"' % n["name"]  # nvar: the name comes from a variable
+        return "{%% slot %s%s%s %%}%s{%% endslot %%}" % (name, p_kwargs(n.get("data") or {}), flags, p_nodes(n["c"], opts))
     if t == "comp":
         dyn = (opts or {}).get("dynamic") or n.get("dyn")
         if dyn == "name":
@@ -602,6 +603,12 @@ class Interp:
             raise ExpectedError("slot outside component")
         inst = owner
         name = n["name"]
+        if n.get("nvar"):
+            name = self.lookup(env, n["nvar"])
+            if name is WILD or name is WILD2:
+                raise WildCondition()
+            if not isinstance(name, str) or not name:
+                raise ModelBudget("slot name variable does not hold a name")  # unsound program (minimiser): skipped
         fills = inst.fills
         if n.get("default") and not inst.dynamic:
             if inst.default_slot is not None and inst.default_slot != name:
